@@ -1,4 +1,5 @@
 //! E2 `pipesim`: byte-stream components (noise, mux, rpc) over `SimPipe`s.
+pub mod bytes;
 pub mod mux;
 pub mod noise;
 pub mod rpc;
@@ -33,6 +34,14 @@ pub fn run_case(mode: &str, seed: u64, keep_log: bool) -> (CaseResult, Vec<Strin
         "noise" => one(seed, |s| noise::run_benign(seed, s, keep_log)),
         "mux" => one(seed, |s| mux::run(seed, s, keep_log)),
         "rpc" => one(seed, |s| rpc::run(seed, s, keep_log)),
+        "bytes" => panics_to_c10(one(seed, |s| bytes::run(seed, s, keep_log, None))),
+        // Exhaustive over the 2^16 mux header values: run i of the batch sends header value i.
+        "mux-header" => {
+            let h = (seed % 65536) as u16;
+            let mut r = panics_to_c10(one(seed, |s| bytes::run(seed, s, keep_log, Some(h))));
+            r.0.summary = serde_json::json!({"mux_header_value": h});
+            r
+        }
         "noise-tamper" => {
             // Fault enumeration: every (transport frame x tamper kind) of the base run `seed`.
             let mut frames = 1usize;
@@ -87,4 +96,23 @@ pub fn run_case(mode: &str, seed: u64, keep_log: bool) -> (CaseResult, Vec<Strin
     };
     res.panics = kit::panics::take();
     (res, log)
+}
+
+/// In the byte-level robustness scenarios every panic in code under test is a C10 violation.
+fn panics_to_c10(mut r: (CaseResult, Vec<String>)) -> (CaseResult, Vec<String>) {
+    let panics = kit::panics::take();
+    for p in &panics {
+        if p.contains("one of the tasks panicked") {
+            continue;
+        }
+        r.0.violations.push(kit::Violation {
+            property: "C10".into(),
+            class: "node_panic".into(),
+            detail: p.clone(),
+            event: r.0.events,
+        });
+        r.1.push(format!("VIOLATION C10 node_panic: {p}"));
+    }
+    r.0.panics = panics;
+    r
 }
